@@ -705,7 +705,7 @@ def parse_def(
                 ) from None
             continue
         if current_symbol in opcode_aliases:
-            current_symbol = 'OP_' + current_symbol
+            current_symbol = opcode_aliases[current_symbol]
         yert(current_symbol != 'OP_DEF',
             f'cannot use OP_DEF within OP_DEF body - symbol {index}')
         if current_symbol in ('}', 'END_DEF'):
